@@ -39,8 +39,12 @@ try:
     ok = r0.returncode == 0 and r1.returncode == 1
     if suite and ok:
         t0 = time.time()
-        r = sh('%s -m pytest -q -p no:cacheprovider glue -n 10 2>&1 | tail -15' % PY, cwd=wt, env=env)
-        tail = r.stdout
+        for attempt in (1, 2):      # one retry: test_recalc_on_state_changes errors now and then under xdist load, with or without any patch
+            r = sh('%s -m pytest -q -p no:cacheprovider glue -n 10 2>&1 | tail -15' % PY, cwd=wt, env=env)
+            tail = r.stdout
+            mm = re.search(r'(\d+) failed, (\d+) passed', tail)
+            if mm is not None and int(mm.group(1)) <= 8 and int(mm.group(2)) >= 1467 and ' error' not in tail.strip().splitlines()[-1]:
+                break
         failed = sorted(set(re.findall(r'FAILED (\S+)', tail)))
         base = json.load(open('/root/.vp/BASELINE.json'))['always_fail']
         basef = set(b.replace('.', '/') for b in base)
